@@ -210,8 +210,24 @@ func mkHooks(typ string, v int) *api.Hooks {
 }
 
 // buildContainer builds the runtime's original container from "set" items.
+// fixedDesc describes the parts of a container no adjustment can touch.
+func fixedDesc(c *api.Container) string {
+	if c == nil {
+		return "<nil>"
+	}
+	var ls []string
+	for k, v := range c.Labels {
+		ls = append(ls, k+"="+v)
+	}
+	sort.Strings(ls)
+	return fmt.Sprintf("id=%s pod=%s name=%s state=%v pid=%d labels=[%s]", c.Id, c.PodSandboxId, c.Name, c.State, c.Pid, strings.Join(ls, ","))
+}
+
 func buildContainer(id, pod string, orig []MOp) *api.Container {
 	c := &api.Container{Id: id, PodSandboxId: pod, Name: "ctr-" + id, State: api.ContainerState_CONTAINER_CREATED}
+	if len(orig)%2 == 0 {
+		c.Labels = map[string]string{"io.kubernetes.container.name": "ctr-" + id, "tier": fmt.Sprint(len(orig))}
+	}
 	for _, o := range orig {
 		switch o.Kind {
 		case "ann":
@@ -941,6 +957,10 @@ func mergeOracle(res *Result, o *mOut, order []string, entries []*Entry, twins b
 			var d []string
 			if rq.Kind == "create" {
 				d = ex.Views[p].diff(extractContainer(en.Ctr), false)
+				// what no adjustment can touch is the runtime's original
+				if want, got := fixedDesc(buildContainer(rq.ID, "pod-"+rq.ID, rq.Orig)), fixedDesc(en.Ctr); want != got {
+					d = append(d, fmt.Sprintf("identity, state or labels: want %s, got %s", want, got))
+				}
 			} else {
 				got := newCState()
 				extractResources(en.Res, got)
